@@ -50,7 +50,7 @@ class DS(BaseDataSource):
 
 class M(AbstractMod):
     def start_up(self, env, mod_config):
-        env.set_data_source(DS(env.config.base.data_bundle_path, {}))
+        env.set_data_source(DS(env.config.base.data_bundle_path, getattr(env.config.base, "future_info", {})))
 
     def tear_down(self, code, exception=None):
         pass
